@@ -14,11 +14,23 @@ package c20
 // the model; the run is repeated from an identical state (and from a state re-opened
 // from its committed root) and must agree bit for bit including the state root; a
 // failed top-level frame must leave the state root unchanged.
+// The model carries the transfer-fee lists of the EVM (fees / refundFees): what the
+// invocation hands back is left-over gas + RefundFee() / RefundAllFee() as
+// app/state_transition.go adds them to tx.Gas; that sum must not exceed the gas
+// supplied and both figures are compared with the model (instance EVMFramesFee: budgets
+// at the boundaries of every fee-carrying op). Call targets that are not in the state
+// yet (precompiled contracts 1..4, a fresh plain address; instance EVMFramesNat) are
+// part of the world: Exist / Empty of each and the set of account records written by
+// finalising the transaction are compared with the model, so a failed frame that
+// leaves the account it created behind is seen.
 //
 // (B) exploration: the assembled programs under byte mutations, directed hostile
 // programs and seeded random byte strings run under the oracles that need no
 // program semantics (no panic / fatal error, gas bound, determinism, unchanged state
-// root when the top frame fails, caller balance, processor-time cap per invocation).
+// root when the top frame fails, caller balance, processor-time cap per invocation),
+// and the frontier families of frontier.go (dense gas budgets around the fee
+// boundaries; one call of every kind to every absent address 1..9 / fresh, whose
+// failure must leave the finalised state equal to a twin on which nothing ran).
 
 import (
 	"encoding/json"
@@ -26,6 +38,8 @@ import (
 	"io/ioutil"
 	"os"
 	"path/filepath"
+	"runtime/debug"
+	"sort"
 	"strings"
 	"sync"
 	"syscall"
@@ -43,12 +57,13 @@ type job struct {
 	Lo    int    `json:"lo"`
 	Hi    int    `json:"hi"`
 	Idx   int    `json:"idx"`
-	Deep  int    `json:"deep"`          // every Deep-th behaviour gets the extended comparison
-	Insts int    `json:"insts"`         // instantiations per behaviour
-	N     int    `json:"n"`             // part B: number of programs
-	Skip  int    `json:"skip"`          // part B: programs already done by an earlier child of this job
-	One   *bprog `json:"one,omitempty"` // part B: run exactly this program (replay of a record)
-	Dir   string `json:"dir,omitempty"` // part W: scratch directory
+	Deep  int    `json:"deep"`            // every Deep-th behaviour gets the extended comparison
+	Insts int    `json:"insts"`           // instantiations per behaviour
+	N     int    `json:"n"`               // part B: number of programs
+	Skip  int    `json:"skip"`            // part B: programs already done by an earlier child of this job
+	One   *bprog `json:"one,omitempty"`   // part B: run exactly this program (replay of a record)
+	Dir   string `json:"dir,omitempty"`   // part W: scratch directory
+	Front bool   `json:"front,omitempty"` // part B: the programs are the frontier families (frontier.go), shard Idx-100 of Insts
 }
 
 type jobResult struct {
@@ -72,6 +87,10 @@ func run(c *core.Ctx) {
 		// a program that makes the EVM allocate without bound must kill this job, not the machine
 		lim := uint64(3) << 30
 		syscall.Setrlimit(syscall.RLIMIT_AS, &syscall.Rlimit{Cur: lim, Max: lim})
+		// every program gets a fresh StateDB with its caches: keep the collector ahead of that
+		// garbage even when the machine is busy, far below the address-space limit
+		debug.SetGCPercent(50)
+		debug.SetMemoryLimit(1 << 30)
 		if j.Part == "A" {
 			childA(c, j)
 		} else if j.Part == "W" {
@@ -92,7 +111,8 @@ func run(c *core.Ctx) {
 		"part A covers programs of the snippet alphabet within the model bounds (ops per frame, total ops, depth); part B is exploration, not exhaustive",
 		"snippet gas costs are measured on the code under test (only their composition across frames is the model's)",
 		"the call-depth limit (1024) is exercised by directed recursive programs in part B, not by the model replay",
-		"EVM only (WASM is out of scope); precompiles are reached only by part B programs",
+		"EVM only (WASM is out of scope); the precompiled contracts are called without input in part A (their native gas is calibrated), with 0 / 32 bytes of input in the frontier families of part B",
+		"the transfer fee is the minimum fee (500000 gas) in every instantiation of the balance unit: the fee amount as a function of the value is not the model's, only where it is recorded, popped, handed back",
 		"termination is measured with a processor-time cap per invocation with gas <= 10^7, not decided",
 	}
 	o.Explanation = "part A (model checking): every behaviour of the bounded EVMFrames instances is checked by TLC and replayed on the real EVM with all observables compared; part B (exploration): mutated, directed and random programs under the semantics-free invariants - sampled, not exhaustive"
@@ -192,9 +212,11 @@ func partA(c *core.Ctx, base string, pl *pool) bool {
 	// The model instances run side by side. Their behaviours are spread over chunk files;
 	// a replay job is started as soon as a chunk is complete. Every k-th behaviour also
 	// goes to a sample file that seeds the mutations of part B and the negative control.
-	cfgs := []string{"EVMFrames.cfg", "EVMFramesTok.cfg"}
+	// ...Fee: the transfer-fee lists around the boundaries of the fee-carrying ops;
+	// ...Nat: call targets that are not in the state yet (precompiled contracts, fresh address)
+	cfgs := []string{"EVMFrames.cfg", "EVMFramesTok.cfg", "EVMFramesFee.cfg", "EVMFramesNat.cfg"}
 	if c.Thorough() {
-		cfgs = []string{"EVMFramesBig.cfg", "EVMFramesGas.cfg", "EVMFramesTok.cfg"}
+		cfgs = []string{"EVMFramesBig.cfg", "EVMFramesGas.cfg", "EVMFramesTok.cfg", "EVMFramesFeeBig.cfg", "EVMFramesNatBig.cfg"}
 	}
 	chunk := c.Pick(2800, 30000)
 	sampleEvery := c.Pick(8, 150)
@@ -236,7 +258,7 @@ func partA(c *core.Ctx, base string, pl *pool) bool {
 			// every exported line is a complete behaviour, so the big instances may use several
 			// TLC workers (lines of different workers interleave, which does not matter)
 			workers := 1
-			if cfg == "EVMFramesBig.cfg" || cfg == "EVMFramesGas.cfg" {
+			if cfg == "EVMFramesBig.cfg" || cfg == "EVMFramesGas.cfg" || cfg == "EVMFramesFeeBig.cfg" || cfg == "EVMFramesNatBig.cfg" {
 				workers = 3
 			}
 			res := c.TLC(tlc.Options{SpecDir: c.SpecDir("EVMFrames"), Module: "EVMFrames", Config: cfg, Workers: workers,
@@ -338,6 +360,7 @@ func (p *pool) submit(j job, timeout time.Duration) {
 		defer p.wg.Done()
 		p.sem <- struct{}{}
 		defer func() { <-p.sem }()
+		oomAt := map[string]int{}
 		for attempt := 0; attempt < 8; attempt++ {
 			arg, _ := json.Marshal(j)
 			results, at, crash := c.RunChild(string(arg), timeout)
@@ -384,6 +407,27 @@ func (p *pool) submit(j job, timeout time.Duration) {
 			if !strings.Contains(crash, "/repo/") && !strings.Contains(crash, "linkchain") && !strings.Contains(crash, "fatal error") {
 				c.Infra("job %s/%d died outside the code under test: %s", j.Part, j.Idx, trunc(crash, 1500))
 				return
+			}
+			if strings.Contains(crash, "out of memory") || strings.Contains(crash, "cannot allocate") {
+				// a child that has run thousands of programs may hit its address-space limit on a
+				// harmless one (seen on a busy machine): only a program that exhausts the memory
+				// of a fresh child running nothing else counts
+				if oomAt[at]++; oomAt[at] < 2 {
+					continue // once more from the start of the job
+				}
+				if j.One == nil {
+					var bp bprog
+					if j.Part != "B" || json.Unmarshal([]byte(at), &bp) != nil || bp.Gen == "" {
+						c.Infra("job %s/%d ran out of memory twice at %s", j.Part, j.Idx, trunc(at, 300))
+						return
+					}
+					p.submit(job{Part: "B", One: &bp, N: 1, Deep: 1, Insts: 1}, 5*time.Minute)
+					j.Skip += done + 1
+					if j.Skip >= j.N {
+						return
+					}
+					continue
+				}
 			}
 			// the process running the EVM died: an unrecoverable failure of the code under test
 			var rec map[string]interface{}
@@ -511,7 +555,7 @@ func programDump(b *behaviour, inst int) interface{} {
 	}
 	d := map[string]interface{}{"root": fmt.Sprintf("%x", p.root.code), "root_address": fmt.Sprintf("%x", p.rootAdr)}
 	walk(p.root, func(f *frameNode, n *opNode) {
-		if n.Op == "call" {
+		if n.Op == "call" && n.child != nil {
 			d[fmt.Sprintf("callee_%d_%x", n.ID, childAddr(n.ID))] = fmt.Sprintf("%x", n.child.code)
 		}
 	})
@@ -527,13 +571,33 @@ func negativeControl(c *core.Ctx, file string) bool {
 	}
 	tried, rejected := 0, 0
 	kinds := map[string]bool{}
-	for i := 0; i < len(lines) && tried < 40; i += 1 + len(lines)/97 {
+	for i := 0; i < len(lines) && tried < 60; i += 1 + len(lines)/97 {
 		b, err := parseBehaviour(lines[i])
 		if err != nil {
 			continue
 		}
 		var kind string
-		switch tried % 4 {
+		switch tried % 6 {
+		case 4:
+			b.Result.Refund++
+			kind = "refunded transfer fees + 1"
+		case 5:
+			// toggle the existence of one call target that is absent from the pre-state
+			a := len(b.World.Bal) - nDyn + 1 + tried%nDyn
+			kept := b.World.Ex[:0:0]
+			had := false
+			for _, x := range b.World.Ex {
+				if x == a {
+					had = true
+				} else {
+					kept = append(kept, x)
+				}
+			}
+			if !had {
+				kept = append(kept, a)
+			}
+			b.World.Ex = kept
+			kind = "existence of one absent call target flipped"
 		case 0:
 			b.Result.Left++
 			kind = "left-over gas + 1"
@@ -557,7 +621,12 @@ func negativeControl(c *core.Ctx, file string) bool {
 			kinds[kind] = true
 		}
 	}
-	c.SetExtra("negative_control", map[string]interface{}{"corrupted_behaviours": tried, "rejected": rejected})
+	var ks []string
+	for k := range kinds {
+		ks = append(ks, k)
+	}
+	sort.Strings(ks)
+	c.SetExtra("negative_control", map[string]interface{}{"corrupted_behaviours": tried, "rejected": rejected, "kinds": ks})
 	if tried == 0 || rejected != tried {
 		c.Infra("vacuous binding: only %d of %d corrupted behaviours were rejected by the replay", rejected, tried)
 		return false
